@@ -23,7 +23,25 @@ pub const TYS: &[Ty] = &[
     Ty { code: 13, wat: "nullref", dt: DataType::NoneNull },
     Ty { code: 14, wat: "nullfuncref", dt: DataType::NoFuncNull },
     Ty { code: 15, wat: "nullexternref", dt: DataType::NoExternNull },
+    // non-nullable twins (distinct types that differ from the above only in nullability)
+    Ty { code: 106, wat: "(ref func)", dt: DataType::FuncRef },
+    Ty { code: 107, wat: "(ref extern)", dt: DataType::ExternRef },
+    Ty { code: 108, wat: "(ref any)", dt: DataType::Any },
+    Ty { code: 109, wat: "(ref eq)", dt: DataType::Eq },
+    Ty { code: 110, wat: "(ref i31)", dt: DataType::I31 },
+    Ty { code: 111, wat: "(ref struct)", dt: DataType::Struct },
+    Ty { code: 112, wat: "(ref array)", dt: DataType::Array },
+    Ty { code: 113, wat: "(ref none)", dt: DataType::None },
+    Ty { code: 114, wat: "(ref nofunc)", dt: DataType::NoFunc },
+    Ty { code: 115, wat: "(ref noextern)", dt: DataType::NoExtern },
 ];
+
+/// the type that differs from `i` only in nullability
+pub fn twin(i: usize) -> Option<usize> {
+    let c = TYS[i].code;
+    let want = if c >= 106 { c - 100 } else if c >= 6 { c + 100 } else { return None };
+    TYS.iter().position(|t| t.code == want)
+}
 
 pub fn code_of_valtype(v: wasmparser::ValType) -> u32 {
     use wasmparser::{AbstractHeapType as A, HeapType, ValType as V};
@@ -57,4 +75,9 @@ pub fn code_of_valtype(v: wasmparser::ValType) -> u32 {
             }
         }
     }
+}
+
+/// code of a wirm `DataType` (read off the IR directly, not through any of wirm's conversions)
+pub fn code_of_datatype(d: &DataType) -> u32 {
+    TYS.iter().find(|t| t.dt == *d).map(|t| t.code).unwrap_or(999)
 }
